@@ -22,6 +22,7 @@ class C09(AofCheck):
             "rewrite": [gen_aof.workload(rng, "w%d" % i, rng.randrange(5, 12), torn=1, rewrite=0.3) for i in range(40 if q else 1000)],
             "fresh": [self.fresh(i) for i in range(3)],
             "rewrite-twice": [self.twice(i) for i in range(24 if q else 240)],
+            "leftover-tmp": [self.leftover(i) for i in range(9 if q else 90)],
             "chain": [gen_aof.chain(rng, "c%d" % i, 3, rng.randrange(2, 7), rewrite=0.3) for i in range(40 if q else 1000)],
             "rewrite-dies": [self.dies(i) for i in range(len(gen_aof.K_POINTS) * (2 if q else 12))],
             "concurrent": sched + [gen_aof.concurrent(rng, "r%d" % i, rng.randrange(0, 5)) for i in range(20 if q else 600)],
@@ -83,6 +84,21 @@ class C09(AofCheck):
         if i % 3 == 0:
             gen_aof.add_cmd(s, 0, ["SET", "late", "1"])
         s.raw("G", ["digest"]); s.raw("K", ["kill"]); s.raw("O", ["open"]); s.raw("G", ["digest"])
+        return s
+
+    def leftover(self, i):
+        """an earlier crashed rewrite left a (longer) temporary preamble behind; later rewrites must not be disturbed by it"""
+        s = Script("lt%d" % i, {"aofsync": gen_aof.POLICIES[i % 3], "images": "0"})
+        s.raw("O", ["open"])
+        for k in range(1 + i % 3):
+            gen_aof.add_cmd(s, 0, ["SET", "k%d" % k, "v" * (5 + i)])
+        s.raw("LT %d" % [300, 5000, 40][i % 3], ["leftover-tmp"])
+        s.raw("RW 0", ["rewrite"])
+        gen_aof.add_cmd(s, 0, ["RPUSH", "l", "x"])
+        s.raw("G", ["digest"]); s.raw("K", ["kill"]); s.raw("O", ["open"]); s.raw("G", ["digest"])
+        if i % 2:
+            gen_aof.add_cmd(s, 0, ["DEL", "k0"]); s.raw("LT 5000", ["leftover-tmp"]); s.raw("RW 0", ["rewrite"])
+            s.raw("G", ["digest"]); s.raw("Q", ["shutdown"]); s.raw("O", ["open"]); s.raw("G", ["digest"])
         return s
 
     def exhaustive_note(self):
